@@ -575,10 +575,10 @@ func runCase(c driver.Case) driver.Result {
 
 func main() {
 	driver.Main(driver.Property{
-		ID:    "C08",
-		Level: "exploration",
-		Rule:  "synchronous part: every synchronous catalogue entry (and random chains, and multi-source entries with random arrival orders) over puppet sources — after EACH producer-side Next/Error/Complete returns, the number of notifications delivered downstream equals the cumulative output of the reference definition, and every delivery ran on the producer's goroutine. Hand-off part: ObserveOn / SubscribeOn / ToChannel × capacity 1..4 (→8; 0 for ToChannel) × input length × a consumer that is allowed exactly k items (gate inside the observer callback / channel reader) — once the process is quiescent, producer-side calls returned − items consumed ≤ capacity + 2 and ≥ min(n, k+capacity) (the queue is really used); then the consumer is released: delivered == emitted in order, terminal last. Non-trivial: at least one producer call was checked.",
-		Assume: []string{"lead is measured logically: consumer tokens + quiescence, no wall-clock thresholds"},
+		ID:        "C08",
+		Level:     "exploration",
+		Rule:      "synchronous part: every synchronous catalogue entry (and random chains, and multi-source entries with random arrival orders) over puppet sources — after EACH producer-side Next/Error/Complete returns, the number of notifications delivered downstream equals the cumulative output of the reference definition, and every delivery ran on the producer's goroutine. Hand-off part: ObserveOn / SubscribeOn / ToChannel × capacity 1..4 (→8; 0 for ToChannel) × input length × a consumer that is allowed exactly k items (gate inside the observer callback / channel reader) — once the process is quiescent, producer-side calls returned − items consumed ≤ capacity + 2 and ≥ min(n, k+capacity) (the queue is really used); then the consumer is released: delivered == emitted in order, terminal last. Non-trivial: at least one producer call was checked. Also: FlatMap*/ConcatAll over inner observables that deliver [v0 v1 C] from their own goroutine: when the producer's Next(v) returns, both values of v have reached the observer.",
+		Assume:    []string{"lead is measured logically: consumer tokens + quiescence, no wall-clock thresholds"},
 		Plan:      plan,
 		Run:       runCase,
 		CaseWatch: 60 * time.Second,
